@@ -46,7 +46,7 @@ def step (T : Tables) (R : RenderCfg) (g : Gen) : Op → Gen × StepObs
   | .tag name bind kwargs =>
     match g.callTag T R.attrChain R.voids R.order name bind kwargs with
     | .ok (s, g') => (g', ⟨none, some s⟩)
-    | .error e => (g, ⟨some e, none⟩)
+    | .error e => (g.afterFailedTag T name bind kwargs, ⟨some e, none⟩)
 
 /-- run a history; returns the final generator and, per step, the observation together with the
     generator right after the step -/
